@@ -173,7 +173,7 @@ claim("C11",
       "Lean 4 proof (denotational correctness of the emitted path expression, by structural recursion) + get oracle under the real runtime")
 
 claim("C01",
-      "PARTIAL proof. Lean 4 theorems for the two places where totality is arithmetic or loop progress: scanRadix_spec / scanDec_spec (the oct / hex / dec literal scanners never "
+      "Lean 4 theorems (partial): rules_progress - over the model of the stylesheet transformer's rule loop (the one compared with the real transformer on every generated sheet), every iteration hands a strictly shorter token list to the next (each rule parser returns a suffix of its input and consumes its first token: no rewinding rule, the mechanism of a hang with unbounded allocation); PARTIAL proof. Lean 4 theorems for the two places where totality is arithmetic or loop progress: scanRadix_spec / scanDec_spec (the oct / hex / dec literal scanners never "
       "overflow: they return the exact integer up to i64::MAX and the float branch beyond, for digit strings of any length) and iter_progress / loop_terminates (every iteration of "
       "the attribute-recovery loop consumes input; the stop test is re-extracted from the source each run). Everything else is observation: every input runs through add_tmpl, "
       "all artefacts, stringify + re-parse and the stylesheet transformer in isolated worker processes with an address-space limit and time budgets (a dead or late worker names "
